@@ -176,6 +176,22 @@ func c12ApplyCells(t *testing.T) {
 					}
 					return c
 				})
+				// tensors with exactly one element (the kernels of every type branch on them)
+				cell(t, "C12", "C12.apply", "Apply/"+d.Name+"/"+mode+"/"+sig+"/one-element", nCases(2, 20), func(rt *rapid.T) Case {
+					shape := rapid.SampledFrom([][]int{{1}, {1, 1}, {1, 1, 1}}).Draw(rt, "shape1")
+					lo, hi := valueRange(d)
+					c := &ApplyCase{DT: d.Name, Mode: mode, Sig: sig}
+					c.A = genOpnd(rt, shape, "contig", lo, hi, 10, "a")
+					if mode == "reuse" || mode == "incr" {
+						c.Dst = genDst(rt, shape, d, "dst")
+						c.Dst.L = Layout{Root: "rm"}
+					}
+					if inF19(c) {
+						rec.Class("excluded:F19")
+						c.Mode = "reuse"
+					}
+					return c
+				})
 			}
 		}
 	}
